@@ -211,6 +211,11 @@ pub async fn post<F>(
 where
 	F: Fn(&str, &str) -> Result<String, Error>,
 {
+	#[cfg(feature = "breard_r_acmed_verif")]
+	crate::verif::emit(
+		"PostBegin",
+		serde_json::json!({"ep": endpoint.name, "url": url, "cell": endpoint.nonce}),
+	);
 	let client = get_client(&endpoint.root_certificates)?;
 	if endpoint.nonce.is_none() {
 		let _ = new_nonce(endpoint).await;
@@ -235,6 +240,11 @@ where
 		update_nonce(endpoint, &response)?;
 		match check_status(&response) {
 			Ok(_) => {
+				#[cfg(feature = "breard_r_acmed_verif")]
+				crate::verif::emit(
+					"HttpOk",
+					serde_json::json!({"ep": endpoint.name, "status": response.status().as_u16()}),
+				);
 				return ValidHttpResponse::from_response(response)
 					.await
 					.map_err(HttpError::from);
@@ -243,6 +253,14 @@ where
 				let resp = ValidHttpResponse::from_response(response).await?;
 				let api_err = resp.json::<HttpApiError>()?;
 				let acme_err = api_err.get_acme_type();
+				#[cfg(feature = "breard_r_acmed_verif")]
+				crate::verif::emit(
+					"HttpErr",
+					serde_json::json!({
+						"ep": endpoint.name, "type": api_err.get_type(),
+						"recoverable": acme_err.is_recoverable(),
+					}),
+				);
 				if !acme_err.is_recoverable() {
 					return Err(api_err.into());
 				}
@@ -256,6 +274,8 @@ where
 		#[cfg(not(feature = "breard_r_acmed_verif"))]
 		thread::sleep(time::Duration::from_secs(crate::DEFAULT_HTTP_FAIL_WAIT_SEC));
 	}
+	#[cfg(feature = "breard_r_acmed_verif")]
+	crate::verif::emit("HttpGiveUp", serde_json::json!({"ep": endpoint.name}));
 	Err("too much errors, will not retry".into())
 }
 
